@@ -176,7 +176,8 @@ type observer struct {
 	client *ethclient.Client
 	done   chan struct{}
 	runErr error
-	gen    int // session generation: calls of an ended session leave the gate
+	sess   *session         // the running session; RPC calls of any other session (stale, late) fail at once
+	real   []*fakeeth.Block // record id-1 -> last real block of the record, on o.node
 	// shadow of the cursor in ABSTRACT block numbers (EventSyncer.FromBlock / FromLogIndex and the
 	// loop's fromBlock); used ONLY to know how long to wait for a page, never as an oracle
 	sessFb, sessFl, curFrom int
@@ -196,11 +197,17 @@ type observer struct {
 	logCalls  int
 	txCount   int    // begin messages since the step began
 	refused   []bool // per begin message: a fault kept it from opening a transaction
-	snaps     []DBj  // per begin message: the committed state before it
+	pre       DBj    // the committed state when the step began
+	snaps     []DBj  // the DISTINCT committed states observed since (before every statement and at the end)
 	callsInTx int
 	unbounded bool
 	panicked  string
 }
+
+// session identifies one lifetime of the service. Every session gets its OWN node (a replica of the
+// world's tree): an eth_blockNumber call that the dying service of an earlier session sent late can
+// then never be mistaken for a call of the current one.
+type session struct{ no int }
 
 // World is the concrete world of one run.
 type World struct {
@@ -211,7 +218,7 @@ type World struct {
 	Blk   []Blk
 	Canon int
 	obs   []*observer
-	real  [][]*fakeeth.Block // per observer: record id-1 -> last real block of the record
+	nsess int
 	notes []string
 	nmu   sync.Mutex
 	// shadowGE: the waiting shadow of the cursor uses ">=" (set when the plan runs with CursorRule "ge")
@@ -284,17 +291,10 @@ func NewWorld(c Consts, seed int64) (*World, error) {
 	}
 	w.Blk = []Blk{{Num: 0, Par: -1, Evs: append([]Ev{}, c.Root...), Len: 1}}
 	w.Canon = 1
-	w.real = make([][]*fakeeth.Block, c.NObs)
 	for i := 0; i < c.NObs; i++ {
 		o := &observer{w: w, idx: i + 1}
 		o.cond = sync.NewCond(&o.mu)
-		o.node = fakeeth.New()
-		root := o.node.AddRoot("b1", w.base)
-		root.Logs = w.makeLogs("b1", root, c.Root)
-		o.node.SetHead("b1")
-		w.real[i] = []*fakeeth.Block{root}
-		o.node.SetCallHandler(o.callHandler, func(b *fakeeth.Block, a common.Address) []byte { return []byte{0x60, 0x00} })
-		o.node.SetFault(o.rpcHook)
+		o.newNode(nil)
 		o.pg = fakepg.New()
 		o.pg.SetLogging(true)
 		pool, err := o.pg.Pool(context.Background())
@@ -349,20 +349,36 @@ func (w *World) writeDeployment() error {
 }
 
 func (w *World) Close() {
-	for _, o := range w.obs {
-		o.stop()
-		if o.pool != nil {
-			o.pool.Close()
+	dbg := os.Getenv("VERIF_CHAINOBS_DEBUG") != ""
+	lap := func(t0 time.Time, what string) {
+		if d := time.Since(t0); dbg && d > time.Second {
+			fmt.Fprintf(os.Stderr, "chainobs debug: Close: %s took %s\n", what, d)
 		}
+	}
+	for _, o := range w.obs {
+		t0 := time.Now()
+		o.stop()
+		lap(t0, "stop")
+		t0 = time.Now()
+		// the server side first: a graceful pgconn close waits up to 15 s for the server to take the
+		// Terminate message, which a connection that a fault has left half way never does
 		if o.pg != nil {
 			o.pg.SetFault(nil)
 			o.pg.Close()
 		}
+		lap(t0, "pg.Close")
+		t0 = time.Now()
+		if o.pool != nil {
+			o.pool.Close()
+		}
+		lap(t0, "pool.Close")
+		t0 = time.Now()
 		if o.node != nil {
-			o.node.SetFault(nil)
+			o.node.SetFault(func(fakeeth.Call) error { return errors.New("verif: world closed") })
 			o.node.Close()
 			o.node.Forget()
 		}
+		lap(t0, "node.Close")
 	}
 	if w.dir != "" {
 		os.RemoveAll(w.dir)
@@ -450,30 +466,59 @@ func (w *World) addRecord(par int, evs []Ev, k int) error {
 		k = 1
 	}
 	id := len(w.Blk) + 1
-	label := fmt.Sprintf("b%d", id)
-	for i, o := range w.obs {
-		p := w.real[i][par-1]
-		parentID := p.ID
-		if k > 1 {
-			parentID = o.node.AddFiller(parentID, fmt.Sprintf("r%d_", id), k-1).ID
-		}
-		b := o.node.AddBlock(label, parentID, nil)
-		b.Logs = w.makeLogs(label, b, evs)
-		w.real[i] = append(w.real[i], b)
-	}
 	if evs == nil {
 		evs = []Ev{}
 	}
 	w.Blk = append(w.Blk, Blk{Num: w.Blk[par-1].Num + k, Par: par, Evs: evs, Len: k})
+	for _, o := range w.obs {
+		o.addReal(id)
+	}
 	w.setCanon(id)
 	return nil
 }
 
 func (w *World) setCanon(id int) {
 	w.Canon = id
-	for i, o := range w.obs {
-		o.node.SetHead(w.real[i][id-1].ID)
+	for _, o := range w.obs {
+		o.node.SetHead(o.real[id-1].ID)
 	}
+}
+
+// addReal materialises record id of the world's tree on the observer's node.
+func (o *observer) addReal(id int) {
+	w := o.w
+	b := w.Blk[id-1]
+	label := fmt.Sprintf("b%d", id)
+	if b.Par < 1 {
+		root := o.node.AddRoot(label, w.base)
+		root.Logs = w.makeLogs(label, root, b.Evs)
+		o.real = append(o.real, root)
+		return
+	}
+	parentID := o.real[b.Par-1].ID
+	if b.Len > 1 {
+		parentID = o.node.AddFiller(parentID, fmt.Sprintf("r%d_", id), b.Len-1).ID
+	}
+	nb := o.node.AddBlock(label, parentID, nil)
+	nb.Logs = w.makeLogs(label, nb, b.Evs)
+	o.real = append(o.real, nb)
+}
+
+// newNode gives the observer a fresh node holding the world's tree; its hook belongs to sess.
+func (o *observer) newNode(sess *session) {
+	if o.node != nil {
+		o.node.SetFault(func(fakeeth.Call) error { return errors.New("verif: node of an ended session") })
+		o.node.Close()
+		o.node.Forget()
+	}
+	o.node = fakeeth.New()
+	o.real = nil
+	for id := 1; id <= len(o.w.Blk); id++ {
+		o.addReal(id)
+	}
+	o.node.SetHead(o.real[o.w.Canon-1].ID)
+	o.node.SetCallHandler(o.callHandler, func(b *fakeeth.Block, a common.Address) []byte { return []byte{0x60, 0x00} })
+	o.node.SetFault(func(c fakeeth.Call) error { return o.rpcHook(sess, c) })
 }
 
 // ---------------------------------------------------------------------------------------------
@@ -528,21 +573,23 @@ func (o *observer) callHandler(b *fakeeth.Block, to common.Address, data []byte)
 // ---------------------------------------------------------------------------------------------
 // hooks
 
-func (o *observer) rpcHook(c fakeeth.Call) error {
+func (o *observer) rpcHook(sess *session, c fakeeth.Call) error {
 	o.mu.Lock()
 	defer o.mu.Unlock()
+	if sess == nil || sess != o.sess {
+		return errors.New("verif: call of an ended session")
+	}
 	switch c.Method {
 	case "eth_blockNumber":
 		if o.active && o.f.K == "rpcB" && o.rpcBOn { // keeps failing until the retry gives up
 			return errInjected
 		}
-		gen := o.gen
 		o.atGate = true
 		o.cond.Broadcast()
-		for o.permits == 0 && o.gen == gen {
+		for o.permits == 0 && o.sess == sess {
 			o.cond.Wait()
 		}
-		if o.gen != gen { // the session this call belongs to is over
+		if o.sess != sess { // the session this call belongs to is over
 			o.cond.Broadcast()
 			return errors.New("verif: session closed")
 		}
@@ -606,16 +653,17 @@ func (o *observer) pgHook(ev fakepg.Event) fakepg.Fault {
 	isIns := ev.Kind == fakepg.KindExecute && (ev.Stmt == "InsertKeyperSet" || ev.Stmt == "InsertChainCollator")
 	isUpd := ev.Kind == fakepg.KindExecute && ev.Stmt == "UpdateEventSyncProgress"
 	isGet := ev.Kind == fakepg.KindExecute && ev.Stmt == "GetEventSyncProgress"
-	if !isBegin && !isCommit && !isIns && !isUpd && !isGet {
+	if ev.Kind != fakepg.KindExecute && ev.Kind != fakepg.KindQuery {
 		return fakepg.None
 	}
-	var snap DBj
-	if isBegin {
-		snap = o.project() // the committed state before this transaction
-	}
+	// every committed state is observed: before each statement-level message (and at the end of the step)
+	snap := o.project()
 	o.mu.Lock()
 	defer o.mu.Unlock()
 	defer o.cond.Broadcast()
+	if o.active {
+		o.observe(snap)
+	}
 	if isGet {
 		if o.startFail {
 			o.fired = true
@@ -623,10 +671,12 @@ func (o *observer) pgHook(ev fakepg.Event) fakepg.Fault {
 		}
 		return fakepg.None
 	}
+	if !isBegin && !isCommit && !isIns && !isUpd {
+		return fakepg.None
+	}
 	if isBegin {
 		o.txCount++
 		o.callsInTx = 0
-		o.snaps = append(o.snaps, snap)
 		o.refused = append(o.refused, false)
 	}
 	f := o.f
@@ -753,8 +803,27 @@ const (
 	settleLimit = 400 * time.Millisecond
 )
 
+// observe appends a committed state if it differs from the last one seen (o.mu is held).
+func (o *observer) observe(d DBj) {
+	last := o.pre
+	if n := len(o.snaps); n > 0 {
+		last = o.snaps[n-1]
+	}
+	if !sameDB(last, d) {
+		o.snaps = append(o.snaps, d)
+	}
+}
+
+func sameDB(a, b DBj) bool {
+	x, _ := json.Marshal(a)
+	y, _ := json.Marshal(b)
+	return string(x) == string(y)
+}
+
 func (o *observer) beginStep(f FaultJ) {
+	pre := o.project()
 	o.mu.Lock()
+	o.pre = pre
 	o.f, o.active, o.fired, o.rpc1Done, o.rpcBOn = f, true, false, false, false
 	o.logRng, o.logCalls, o.txCount, o.callsInTx, o.snaps, o.refused = nil, 0, 0, 0, nil, nil
 	o.mu.Unlock()
@@ -826,10 +895,13 @@ func (o *observer) start(f FaultJ) (ret string, detail string) {
 	pr := o.project()
 	o.mu.Lock()
 	o.startFail = f.K == "db"
-	o.gen++
+	o.w.nsess++
+	sess := &session{no: o.w.nsess}
+	o.sess = sess
 	o.atGate, o.permits, o.served = false, 0, 0
 	o.unbounded, o.panicked = false, ""
 	o.mu.Unlock()
+	o.newNode(sess)
 	ctx, cancel := context.WithCancel(context.Background())
 	client := o.node.Dial()
 	contracts, err := deployment.NewContracts(client, o.w.dir)
@@ -901,6 +973,9 @@ func (o *observer) cleanup() {
 	cancel, client := o.cancel, o.client
 	o.cancel, o.client, o.done = nil, nil, nil
 	o.up = false
+	o.sess = nil
+	o.atGate = false
+	o.cond.Broadcast()
 	o.mu.Unlock()
 	if cancel != nil {
 		cancel()
@@ -914,7 +989,7 @@ func (o *observer) cleanup() {
 func (o *observer) kill() bool {
 	o.mu.Lock()
 	cancel, done := o.cancel, o.done
-	o.gen++
+	o.sess = nil
 	o.atGate = false
 	o.cond.Broadcast()
 	o.mu.Unlock()
@@ -1129,6 +1204,21 @@ func (o *observer) finish(res pollObs, done chan struct{}) pollObs {
 	fired, f := o.fired, o.f
 	o.mu.Unlock()
 	crashFault := fired && (f.K == "crash" || f.K == "crashc")
+	if fired && (f.K == "crashc" || f.K == "dropc") {
+		// the server installs the commit after the fault decision; the client may be gone before it has
+		o.waitFor(stepLimit, func() bool {
+			drop := -1
+			for _, e := range o.pg.Log() {
+				if e.Kind == fakepg.KindDrop {
+					drop = e.Seq
+				}
+				if drop >= 0 && e.Seq > drop && (e.Kind == fakepg.KindCommit || e.Kind == fakepg.KindRollback) {
+					return true
+				}
+			}
+			return false
+		})
+	}
 	switch {
 	case res.Ret == "hang":
 	case unb:
@@ -1169,39 +1259,11 @@ func (o *observer) finish(res pollObs, done chan struct{}) pollObs {
 			o.curFrom = res.Rng[1] + 1
 		}
 	}
-	snaps := append([]DBj{}, o.snaps...)
-	refused := append([]bool{}, o.refused...)
 	o.mu.Unlock()
 	final := o.project()
-	// the state after the transaction opened by begin message i is the snapshot taken at the next
-	// begin message (or the final state); which transactions committed is in the fakepg log
-	var committed []bool
-	for _, e := range o.pg.Log() {
-		switch e.Kind {
-		case fakepg.KindBegin:
-			committed = append(committed, false)
-		case fakepg.KindCommit:
-			if len(committed) > 0 {
-				committed[len(committed)-1] = true
-			}
-		}
-	}
-	j := 0
-	for i := range snaps {
-		if refused[i] {
-			continue
-		}
-		if j < len(committed) && committed[j] {
-			if i+1 < len(snaps) {
-				res.Seq = append(res.Seq, snaps[i+1])
-			} else {
-				res.Seq = append(res.Seq, final)
-			}
-		}
-		j++
-	}
-	if j != len(committed) {
-		o.w.note("observer %d: %d transactions in the database log, %d begin messages seen", o.idx, len(committed), j)
-	}
+	o.mu.Lock()
+	o.observe(final)
+	res.Seq = append(res.Seq, o.snaps...)
+	o.mu.Unlock()
 	return res
 }
